@@ -122,6 +122,7 @@ type NodeCfg struct {
 	BlockTime     time.Duration
 	DABlockTime   time.Duration
 	LazyMode      bool
+	BlockTimeZero bool // configure block_time = 0s (the node's default of 1 s applies); BlockTime must then be 1 s
 	LazyInterval  time.Duration
 	MaxPending    uint64
 	DAStartHeight uint64
@@ -283,6 +284,9 @@ func (n *Node) config() config.Config {
 	c.ChainID = n.W.Genesis.ChainID
 	c.Node.Aggregator = n.Cfg.Aggregator
 	c.Node.BlockTime = config.DurationWrapper{Duration: n.Cfg.BlockTime}
+	if n.Cfg.BlockTimeZero {
+		c.Node.BlockTime = config.DurationWrapper{} // "0s" in the configuration: the manager applies its 1 s default
+	}
 	c.Node.LazyMode = n.Cfg.LazyMode
 	if n.Cfg.LazyInterval > 0 {
 		c.Node.LazyBlockInterval = config.DurationWrapper{Duration: n.Cfg.LazyInterval}
